@@ -15,6 +15,10 @@ where
             return None;
         }
         let reader = self.base.region().create_reader();
+        // Only elements physically in the region are addressable (see RawMmapSource).
+        if index >= reader.len().saturating_sub(HEADER_OFFSET) / size_of::<T>() {
+            return None;
+        }
         Some(unsafe {
             S::read_from_ptr(
                 reader.prefixed(HEADER_OFFSET).as_ptr(),
@@ -34,6 +38,11 @@ where
         buf.reserve(to - from);
         if S::IS_NATIVE_LAYOUT {
             let reader = self.base.region().create_reader();
+            // Only elements physically in the region are addressable (see RawMmapSource).
+            let to = to.min(reader.len().saturating_sub(HEADER_OFFSET) / size_of::<T>());
+            if from >= to {
+                return;
+            }
             let src = unsafe {
                 std::slice::from_raw_parts(
                     reader
